@@ -98,6 +98,7 @@ impl PrefixFileSet {
     }
 
     pub fn push(&mut self, file: PrefixFile) {
+        self.len += file.len;
         self.files.push(file);
     }
 }
